@@ -210,7 +210,10 @@ class PyEval(MiniEval):
                         self.depth -= 1
                     if out[0] == "raise":
                         raise Raised(f"{name}: {out[1]}", str(out[1]))
-                    return out[1] if out[0] == "return" else None
+                    res_ = out[1] if out[0] == "return" else None
+                    if any(d in ("cached_property", "functools.cached_property") for d in m.decorator_names()):
+                        value.attrs[name] = res_  # computed once per object, then an ordinary attribute (what cached_property does)
+                    return res_
             # class-level constant of one of the token's classes (`_setting = True` in a subclass), MRO order; only
             # literal values: anything else (field(...), descriptors) stays opaque
             for c in value.attrs["__classes__"]:
@@ -955,13 +958,14 @@ class PyEval(MiniEval):
             if isinstance(recv, dict) and m == "update" and len(node.args) == 1 and isinstance(A()[0], dict) and not node.keywords:
                 recv.update(A()[0])
                 return None
-            if isinstance(recv, (set, frozenset)) and m in ("union", "intersection", "difference", "issubset", "issuperset", "copy") \
-                    and all(isinstance(x, (set, frozenset, list, tuple)) for x in A()):
-                return getattr(set(recv), m)(*[set(x) for x in A()])
+            if isinstance(recv, (set, frozenset)) and m in ("union", "intersection", "difference", "issubset", "issuperset", "isdisjoint", "copy") \
+                    and all(isinstance(x, (set, frozenset, list, tuple, dict, KeysView)) for x in A()):
+                return getattr(set(recv), m)(*[set(x) for x in A()])  # (of a dict: its keys)
             if isinstance(recv, set) and m == "update" and all(isinstance(x, (set, frozenset, list, tuple)) for x in A()):
                 recv.update(*A())
                 return None
-            if fn in ("set.intersection", "set.union") and A() and all(isinstance(x, (set, frozenset)) for x in A()):
+            if fn in ("set.intersection", "set.union", "set.issubset", "set.issuperset", "set.isdisjoint", "set.difference") and A() \
+                    and all(isinstance(x, (set, frozenset, KeysView, dict)) for x in A()):
                 return getattr(set, fn[4:])(*[set(x) for x in A()])
             if isinstance(recv, set) and m in ("add", "discard"):
                 getattr(recv, m)(A()[0])
@@ -1014,6 +1018,18 @@ class PyEval(MiniEval):
             if isinstance(v, (str, int, float, bool)) or v is None:
                 return str(v) if fn == "str" else repr(v)
             raise Unsupported(f"{fn} of {v!r}")
+        if fn == "isinstance" and len(node.args) == 2 and isinstance(node.args[1], ast.BinOp):
+            # isinstance(x, A | B | C) with class NAMES (some of which the rule may also hook as constructors): by source name
+            def _alts(e_: ast.expr) -> list[str] | None:
+                if isinstance(e_, ast.BinOp) and isinstance(e_.op, ast.BitOr):
+                    l_, r_ = _alts(e_.left), _alts(e_.right)
+                    return None if l_ is None or r_ is None else l_ + r_
+                d_ = dotted(e_)
+                return [d_] if d_ else None
+            names_ = _alts(node.args[1])
+            v0_ = self.ev(node.args[0], env)
+            if names_ is not None and isinstance(v0_, Tok) and not any(n_ in BUILTIN_TYPES or n_ == "NoneType" for n_ in names_):
+                return bool(v0_.classes() & {n_.split(".")[-1] for n_ in names_})
         if fn == "isinstance" and len(node.args) == 2:
             v, t = A()
             if isinstance(v, Opaque):
